@@ -318,7 +318,9 @@ func (s state) configOrdered(desc bool) *project.Config {
 const dupGetSig = "C11:duplicate-root-path:get-writes-arbitrary-version"
 
 func dupGet(s state, kind string) bool {
-	return (kind == "get-add" || kind == "get-same") && s.dupPath()
+	// (the defect this folded every consequence under was repaired in /repo: consequences are
+	// reported under their own signatures again)
+	return false
 }
 
 // dupPath reports whether some project is required under more than one name.
